@@ -72,15 +72,21 @@ def rule_str(repo):
             if term["k"] != "switch":
                 continue
             d = tb.operand(term["discr"], sb, len(b.blocks[sb]["stmts"]))
-            if d[0] == "discr" and strip(d[1])[0] == "call" and strip(d[1])[1].name == "to_digit":
+            x = strip(d[1]) if d[0] == "discr" else None
+            none_idx = None
+            if x is not None and x[0] == "call" and x[1].name == "to_digit":
+                none_idx = 0                       # Option::None
+            elif x is not None and x[0] == "call" and x[1].name == "branch" and x[1].get("trait") == "core::ops::Try" and strip(x[2][0])[0] == "call" and strip(x[2][0])[1].name == "to_digit":
+                none_idx = 1                       # ControlFlow::Break of `to_digit(..)?`
+            if none_idx is not None:
                 tgt = term["otherwise"]
                 for val, tg in term["arms"]:
-                    if int(val) == 0:
+                    if int(val) == none_idx:
                         tgt = tg
                 res = paths.simulate(b, tb, paths.Evaluator({}), start=tgt)
                 v = paths.path_value(b, tb, res.blocks, 0)
                 loops_again = any(c[1].name == "next" for c in res.calls)
-                none_ok = res.end == "return" and not loops_again and all(x[0] == "agg" and x[2] == "None" for x in alts(v))
+                none_ok = res.end == "return" and not loops_again and all((x[0] == "agg" and x[2] == "None") or (x[0] == "call" and x[1].name == "from_residual" and "Option" in x[1].i) for x in alts(v))
         # multiplier: ints[10]
         mul_ok = False
         for s in walk(tb.return_value()):
@@ -112,6 +118,12 @@ def rule_setbit(repo):
     R = Rule("R-SETBIT", "set_bit operates on the canonical (non-Montgomery) value and re-reduces; the public wrapper forwards (bit, to) unchanged; "
              "U256::set_bit sets/clears bit n&63 of limb n>>6 for n<256", floor=4)
     fp = repo.fp_types()
+    # total constructors U256 / [u8; 64] → field (they necessarily reduce), by signature
+    total_ctors = {}
+    for cb in F.fn_bodies():
+        ins = cb.rec.get("inputs") or []
+        if cb.rec.get("output") in fp and len(ins) == 1 and not cb.impl_trait and (ins[0] == U256 or ins[0].replace(" ", "") in ("&[u8;64]", "[u8;64]")):
+            total_ctors[cb.rec["path"]] = cb.rec["output"]
     for ap in fp:
         path = ap + "::set_bit"
         b = F.bodies.get(path)
@@ -123,7 +135,7 @@ def rule_setbit(repo):
         ok = False
         why = show(fin, maxdepth=5)[:220]
         v = fin
-        if v[0] == "call" and len(v[2]) == 1 and (v[1].d in (ap + "::new_mul_factor",) or v[1].d.endswith("::interpret")):
+        if v[0] == "call" and len(v[2]) == 1 and total_ctors.get(v[1].d) == ap:
             x = strip(v[2][0])
             if x[0] == "mutcall" and x[1].d == "crate::u256::U256::set_bit" and x[3] == 0:
                 canon = shared.is_canon_conv(x[2][0], ap) == ("init", ("deref", 1))
@@ -140,37 +152,52 @@ def rule_setbit(repo):
         ok = fin[0] == "update" and fin[2] == (("f", 0),) and fin[3][0] == "mutcall" and fin[3][1].d == "crate::fields::fp::Fr::set_bit" and fin[3][2][1:] == (("param", 2), ("param", 3))
         R.check(ok, "C13:setbit:crate::Fr::set_bit", "Fr::set_bit does not forward to fields::Fr::set_bit(bit, to): %s" % show(fin, maxdepth=4)[:200], w.file_line(), w.rec["path"],
                 sample={"wrapper": show(fin, maxdepth=3)[:160]})
-    # U256::set_bit: polarity and constants
+    # U256::set_bit: for every bit index, over opaque limbs — exactly one limb changes, by OR with / AND with the complement of
+    # the single-bit mask 1 << (n & 63) of limb n >> 6; indices ≥ 256 change nothing and answer false
     u = F.bodies.get("crate::u256::U256::set_bit")
     R.instance()
     if u is None:
         R.fail_closed("C13:setbit:U256", "U256::set_bit not found")
     else:
-        ops = {0: set(), 1: set()}
-        consts = set()
-        tb = repo.tb(u)
-        for to in (0, 1):
-            for big in (0, 1):
-                asg = {}
-                atoms = paths.collect_atoms(u, tb)
-                ev = paths.Evaluator({a: (to if a == ("bool", ("param", 3)) else 0) for a in atoms})
-                # n >= 256 is a MIR comparison on the parameter: pin it through intvals
-                ev.intvals[("param", 2)] = 300 if big else 70
-                res = paths.simulate(u, tb, ev)
-                if big:
+        from core.bytex import Machine, T, Tup, Adt, Ref
+        bad = []
+        rows = 0
+        adt = F.adts.get("crate::u256::U256")
+        inner_ty = adt["variants"][0]["fields"][0]["ty"] if adt else ""
+        inner_head = inner_ty.split("<")[0]
+        for n in list(range(0, 256)) + [256, 257, 511, 4096, 2 ** 32, 2 ** 63]:
+            for to in (False, True):
+                limbs = Tup([T("limb", j) for j in range(4)])
+                me = Adt("crate::u256::U256", "U256", [Adt(inner_head, inner_head.split("::")[-1], [limbs])])
+                m = Machine(F, lambda cb: (cb.rec.get("span") or {}).get("file") == (u.rec.get("span") or {}).get("file"))
+                outs = m.run(u, [Ref(0, 0), n, to], holders=[me])
+                rows += 1
+                if len(outs) != 1 or outs[0].kind != "return" or outs[0].pc:
+                    bad.append((n, to, "outcomes %r" % (outs[:2],)))
                     continue
-                for bb in res.blocks:
-                    for st in u.blocks[bb]["stmts"]:
-                        if st["k"] == "assign" and st["rv"]["k"] == "binop":
-                            ops[to].add(st["rv"]["op"])
-                            for o in (st["rv"]["a"], st["rv"]["b"]):
-                                if o.get("k") == "const" and "int" in o:
-                                    consts.add(int(o["int"]))
-                        if st["k"] == "assign" and st["rv"]["k"] == "unop":
-                            ops[to].add(st["rv"]["op"])
-        ok = "BitOr" in ops[1] and "BitAnd" not in (ops[1] - {"BitAnd"}) and "Not" not in ops[1] and "Not" in ops[0] and "BitOr" not in ops[0] and {6, 63, 256} <= consts
-        R.check(ok, "C13:setbit:crate::u256::U256::set_bit", "U256::set_bit polarity/constants differ: to=1 ops %s, to=0 ops %s, consts %s" % (sorted(ops[1]), sorted(ops[0]), sorted(consts)),
-                u.file_line(), u.rec["path"], sample={"to=true": sorted(ops[1]), "to=false": sorted(ops[0]), "constants": sorted(consts)})
+                o = outs[0]
+                after = o.roots.get(0)
+                try:
+                    got = list(after.fields[0].fields[0])
+                except Exception:
+                    bad.append((n, to, "limbs lost: %r" % (after,)))
+                    continue
+                want = list(limbs)
+                if n < 256:
+                    j, k = n >> 6, n & 63
+                    ok_val = bool(o.value) is True
+                    g = got[j]
+                    okl = isinstance(g, T) and g[0] == "binop" and g[2] == limbs[j] and (
+                        (to and g[1] == "BitOr" and g[3] == (1 << k)) or
+                        (not to and g[1] == "BitAnd" and isinstance(g[3], int) and (g[3] % (1 << 64)) == ((1 << 64) - 1 - (1 << k))))
+                    rest = all(got[i] == limbs[i] for i in range(4) if i != j)
+                    if not (ok_val and okl and rest):
+                        bad.append((n, to, "limb %d becomes %r, returns %r" % (j, g, o.value)))
+                else:
+                    if bool(o.value) is not False or got != want:
+                        bad.append((n, to, "index ≥ 256 returns %r / changes limbs" % (o.value,)))
+        R.check(not bad, "C13:setbit:crate::u256::U256::set_bit", "U256::set_bit does not set/clear exactly bit n&63 of limb n>>6 (false and untouched for n ≥ 256): %s" % bad[:3],
+                u.file_line(), u.rec["path"], sample={"bit_indices_x_polarity": rows, "limbs": "opaque", "all_rows_match": not bad})
     return R.finish()
 
 
